@@ -176,6 +176,11 @@ def scenarios(ctx):
                        reconnects=[(False, 0, v)], pub_qos=(1, 2), windows=(1, 2, 3), pub_retain=(True,), bandwidths=((1, 1), (100000, 4)),
                        budgets=dict(pub=3, ack=1, misack=1, setbw=1, tick=2 if q else 3, setwin=1, lose=0 if q else 1,
                                     rebuild=0 if q else 1, connect=0 if q else 1, connack=0 if q else 1)))
+    # the protocol version changes between two connections of one persistent session (DUP on repeats follows the connection)
+    for v0, v1 in ((3, 4), (4, 3)):
+        out.append(Std('pubsub-v%d-to-v%d' % (v0, v1), profile='pubsub', init=(('connect', 0, False, 0, v0), ('connack', 0, 0, False)),
+                       connects=[(False, 0, v0)], reconnects=[(False, 0, v1)], pub_qos=(2,), closing=False,
+                       budgets=dict(pub=1, sub=1, unsub=1, ack=1, tick=2 if q else 4, lose=1, rebuild=1, connect=1, connack=1)))
     out.append(Std('two-addresses', profile='pubsub', naddr=2, closing=False, pub_qos=(1, 2),
                    init=(('connect', 0, True, 0, 4), ('connack', 0, 0, False), ('connect', 1, False, 0, 3), ('connack', 1, 0, False)),
                    reconnects=[(True, 0, 4)], budgets=dict(tick=2),
